@@ -1,5 +1,7 @@
 import NmVerif.Proto
 import NmVerif.Index.Broadcast
+import NmVerif.Index.BroadcastExpr
+import NmVerif.Index.BroadcastKinds
 namespace NmVerif.Driver.C06
 open NmVerif NmVerif.Proto
 
@@ -9,8 +11,103 @@ def fmtBools (l : List Bool) : String := fmtNats (l.map (fun b => if b then 1 el
 def provData (v : IxView) (base : Int) : Option (List Int) :=
   (allIdx v.dst).mapM (fun d => (v.map d).map (fun i => base + (computeOffset i (strides v.src) : Int)))
 
+/-! ### mixed-kind harness (harness/gen_kinds_c06.py): one answer line of `name=value` clauses.  The model is
+kind-blind — the property says the container kind of a shape must not matter. -/
+
+def fmtOptShape : Option Shape → String
+  | some r => fmtNats r
+  | none => "nothing"
+
+/-- `shape=<list>;data=<row-major elements>` of one view over an operand filled with `base + flat id` -/
+def arrStr (v : IxView) (base : Int) : Option String :=
+  (provData v base).map (fun l => s!"shape={fmtNats v.dst};data={fmtInts l}")
+
+/-- the operands `order` of `ss` (operand `j` holds `1000 j + flat id`) through `broadcast_arrays` -/
+def kViews (ss : List Shape) (order : List Nat) : Option (Option (List (IxView × Int))) := do
+  let sel ← order.mapM (fun j => ss[j]?)
+  pure ((broadcastArraysViews sel).map (fun vs => vs.zip (order.map (fun (j : Nat) => 1000 * Int.ofNat j))))
+
+def kBarr (ss : List Shape) (order : List Nat) : Option String := do
+  match ← kViews ss order with
+  | none => pure "nothing"
+  | some vbs => do
+    let parts ← vbs.mapM (fun (v, b) => arrStr v b)
+    pure ("|".intercalate parts)
+
+/-- element-wise sum of the broadcast operands (view::add) -/
+def kAdd (ss : List Shape) (order : List Nat) : Option String := do
+  match ← kViews ss order with
+  | none => pure "nothing"
+  | some vbs => do
+    let datas ← vbs.mapM (fun (v, b) => provData v b)
+    match vbs.head?, datas with
+    | some (v0, _), d0 :: ds =>
+      let sum := ds.foldl (fun acc d => List.zipWith (· + ·) acc d) d0
+      pure s!"shape={fmtNats v0.dst};data={fmtInts sum}"
+    | _, _ => none
+
+def kClauses (a : Args) (f : List Shape → List Nat → Option String) : Option String := do
+  let ss ← a.natLists "shapes"
+  let orders ← a.natLists "orders"
+  let names := ((a.get? "names").getD "").splitOn ","
+  if names.length ≠ orders.length then none
+  let parts ← (names.zip orders).mapM (fun (n, o) => (f ss o).map (fun t => s!" {n}={t}"))
+  pure ("ok" ++ String.join parts)
+
+/-- `value@container` + hook events of one clause under the operand kinds (`refused` = does not compile) -/
+def fmtK (o : Option KOut) : String :=
+  match o with
+  | none => "nothing"
+  | some k =>
+    let v := match k.val with | some r => fmtNats r | none => "nothing"
+    let e := (if k.val.isSome && k.overflows > 0 then s!"!ev1:{k.overflows}" else "") ++
+             (if k.val.isSome && k.clamps > 0 then s!"!ev2:{k.clamps}" else "")
+    s!"{v}@{k.ty.tag}{e}"
+
+/-- the clauses under the operand kinds (request `k6t` of the generated harness) -/
+def kexprKinded (a : Args) : Option String := do
+  let ss ← a.natLists "shapes"
+  let ts ← a.get? "terms"
+  let ks := ((a.get? "kinds").getD "").splitOn ","
+  let bs ← a.natLists "bounds"
+  if ks.length ≠ ss.length ∨ bs.length ≠ ss.length then none
+  let env ← (ks.zip (ss.zip bs)).mapM (fun (k, s, b) => KShape.ofKind k s b)
+  let parts ← (ts.splitOn ",").mapM (fun (t : String) =>
+    match t.splitOn ":" with
+    | [n, e] => (BExpr.parse e).map (fun (x : BExpr) => s!" {n}={fmtK (x.keval env)}")
+    | _ => none)
+  pure ("ok" ++ String.join parts)
+
 def handle : Handler := fun op a =>
   match op with
+  | "kexprk" => orBad (kexprKinded a)
+  | "kexpr" => orBad do
+      let ss ← a.natLists "shapes"
+      let ts ← a.get? "terms"
+      let parts ← (ts.splitOn ",").mapM (fun t =>
+        match t.splitOn ":" with
+        | [n, e] => (BExpr.parse e).map (fun x => s!" {n}={fmtOptShape (x.eval ss)}")
+        | _ => none)
+      pure ("ok" ++ String.join parts)
+  | "ksbt" => orBad do
+      let src ← a.nats "src"
+      let dst ← a.nats "dst"
+      match shapeBroadcastTo src dst with
+      | none => pure "ok s=nothing"
+      | some (sh, free) =>
+        -- the None overload stores the target into an array of the LAST clipped type of a clipped target
+        let sh' := match a.get? "ksrc", a.get? "kdst", a.nats "bounds" with
+          | some "none", some "cl", some bounds => sbtNoneClipped bounds sh
+          | _, _, _ => sh
+        pure s!"ok s={fmtNats sh'}/{fmtBools free}"
+  | "kbto" => orBad do
+      let src ← a.nats "src"
+      let dst ← a.nats "dst"
+      match broadcastToView src dst with
+      | none => pure "ok v=nothing"
+      | some v => (arrStr v 0).map (fun t => s!"ok v={t}")
+  | "kbarr" => orBad (kClauses a kBarr)
+  | "kadd" => orBad (kClauses a kAdd)
   | "bshape" => orBad do
       let ss ← a.natLists "shapes"
       if ss.length < 2 then none
